@@ -33,7 +33,7 @@ shapes (iterator frames, one dependency at a time, colour dictionaries) and skip
 from __future__ import annotations
 
 import ast
-from typing import Callable, Dict, List, Optional, Set, Tuple
+from typing import Callable, Dict, List, Optional, Sequence, Set, Tuple
 
 from engines import c17facts as cf, linform, pyfacts as pf
 from engines.common import AnalysisError, Ctx
@@ -1424,7 +1424,8 @@ def _classify(t: ast.AST, S: str) -> Optional[Tuple[str, str]]:
                 return ('foreign', 'T')
             if isinstance(op, (ast.Eq, ast.Is)):
                 return ('foreign', 'F')
-        if isinstance(a, ast.Name) and a.id == S and isinstance(b, ast.Constant) and b.value is None:
+        other = b if (isinstance(a, ast.Name) and a.id == S) else a if (isinstance(b, ast.Name) and b.id == S) else None
+        if other is not None and isinstance(other, ast.Constant) and other.value is None:
             if isinstance(op, (ast.IsNot, ast.NotEq)):
                 return ('notnone', 'T')
             if isinstance(op, (ast.Is, ast.Eq)):
@@ -1442,55 +1443,184 @@ def _bare_use(t: ast.AST, S: str) -> bool:
     return any(isinstance(x, ast.Name) and x.id == S and id(x) not in attr_bases for x in ast.walk(t))
 
 
+def _site_value(t: ast.AST, S: str, val: Dict[str, bool]) -> Optional[bool]:
+    """Three-valued value of a test under a valuation of {'foreign', 'notnone'}: the Boolean structure (and / or / not) over the recognised atoms about
+    the producing job `S`; atoms that do not look at the identity of `S` are unknown (None).  AnalysisError for an atom about `S` that is not recognised."""
+    if isinstance(t, ast.UnaryOp) and isinstance(t.op, ast.Not) and not (isinstance(t.operand, ast.Name) and t.operand.id == S):
+        v = _site_value(t.operand, S, val)
+        return None if v is None else not v
+    if isinstance(t, ast.BoolOp):
+        vs = [_site_value(x, S, val) for x in t.values]
+        if isinstance(t.op, ast.And):
+            return False if any(v is False for v in vs) else (True if all(v is True for v in vs) else None)
+        return True if any(v is True for v in vs) else (False if all(v is False for v in vs) else None)
+    c = _classify(t, S)
+    if c is not None:
+        if c[0] not in val:
+            return None
+        return val[c[0]] == (c[1] == 'T')
+    if _bare_use(t, S):
+        raise AnalysisError(f'test `{pf.nsrc(t)}` on the producing job not recognised')
+    return None
+
+
+def _expand_flags(fn: pf.FuncDef, e: ast.AST, stop: Set[str], depth: int = 3) -> ast.AST:
+    """Copy of the test e in which a local that is assigned exactly once, to a Boolean-valued expression (comparison, not / and / or, isinstance, another such
+    local) over names that are themselves never re-assigned, is replaced by that expression: `is_foreign = source != self` ... `if is_foreign:`."""
+    import copy
+    asg = pf.assignments(fn)
+
+    def stable(x: ast.AST) -> bool:
+        return all(len(asg.get(n.id, [])) <= 1 for n in ast.walk(x) if isinstance(n, ast.Name))
+
+    class _S(ast.NodeTransformer):
+        def __init__(self, d: int):
+            self.d = d
+
+        def visit_Name(self, node: ast.Name):
+            if isinstance(node.ctx, ast.Load) and node.id not in stop and self.d > 0:
+                dd = pf.single_def(fn, node.id)
+                if isinstance(dd, (ast.Compare, ast.BoolOp, ast.Name)) or (isinstance(dd, ast.UnaryOp) and isinstance(dd.op, ast.Not)) \
+                        or (isinstance(dd, ast.Call) and pf.dotted(dd.func) == 'isinstance'):
+                    if stable(dd):
+                        return _S(self.d - 1).visit(copy.deepcopy(dd))
+            return node
+
+        def visit_Lambda(self, node):
+            return node
+    return _S(depth).visit(copy.deepcopy(e))
+
+
+# calls that a recording site is known to make and that do not hide one of the recording effects
+SITE_KNOWN_CALLS = {'_add_inputs', '_add_internal_outputs', '_add_resource_to_set', 'add', 'isinstance', 'str', 'repr', 'type', 'id', 'len', 'shq', 'quote',
+                    'BatchException', 'warn', 'source', 'format', 'print', 'hasattr', 'getattr', '_get_path', 'group', 'groupdict', 'get'}
+# never inlined into a recording site: the rules recognise these calls by name (their bodies are checked separately by rules/c18.py)
+SITE_NO_INLINE = ('_add_inputs', '_add_internal_outputs', '_add_resource_to_set')
+
+
+def _source_assignments(fn: pf.FuncDef) -> List[ast.Assign]:
+    return [st for st in _stmts(fn) if isinstance(st, ast.Assign) and len(st.targets) == 1 and isinstance(st.targets[0], ast.Name)
+            and isinstance(st.value, ast.Call) and isinstance(st.value.func, ast.Attribute) and st.value.func.attr == 'source' and not st.value.args
+            and not st.value.keywords and isinstance(st.value.func.value, ast.Name)]
+
+
+def locate_site(ctx: Ctx, m: pf.Module, qual: str) -> Tuple[pf.Module, pf.FuncDef, str, List[Tuple[str, int]]]:
+    """The recording callback named by `qual` (`<outer>.<nested def>`), found by its name or - when it was renamed - by its role (the callback handed to re.sub /
+    the only nested def that reads `<r>.source()`), with its statement-level helpers inlined.  Returns (module copy, function, actual qualified name, inlined)."""
+    outer_q, name = qual.rsplit('.', 1)
+    outer = m.func(outer_q)
+    nested = [d for d in pf._body_defs(outer) if isinstance(d, (ast.FunctionDef, ast.AsyncFunctionDef))]
+    actual = None
+    if any(d.name == name for d in nested):
+        actual = name
+    else:
+        cbs = set()
+        for c in pf.calls_in(outer):
+            if pf.dotted(c.func) == 're.sub':
+                cb = c.args[1] if len(c.args) >= 2 else next((k.value for k in c.keywords if k.arg == 'repl'), None)
+                if isinstance(cb, ast.Name):
+                    cbs.add(cb.id)
+        cands = [d.name for d in nested if d.name in cbs]
+        if len(cands) != 1:
+            cands = []
+            for d in nested:
+                try:
+                    _m2, f2, _il = cf.inline_site(m, f'{outer_q}.{d.name}', exclude=SITE_NO_INLINE)
+                except AnalysisError:
+                    continue
+                if _source_assignments(f2):
+                    cands.append(d.name)
+        ctx.need(len(cands) == 1, f'anchor vanished: {m.rel}::{qual} (no definition named {name!r}, and the recording callback could not be identified by its role: '
+                                  f'candidates {cands})')
+        actual = cands[0]
+    m2, fn, inlined = cf.inline_site(m, f'{outer_q}.{actual}', exclude=SITE_NO_INLINE)
+    return m2, fn, f'{outer_q}.{actual}', inlined
+
+
 class RecordingSite:
     """One of the two places where a job records the resources it mentions:  `<S> = <R>.source()` followed by tests on S.
+    The callback is analysed with its statement-level helpers inlined (module functions, sibling nested defs, methods of the class and its bases), so
+    that an extracted "record the dependency" helper is seen through.  Keys name the anchor `qual` and roles, never local names.
     (Also used by rules/c18.py.)"""
 
     def __init__(self, ctx: Ctx, m: pf.Module, qual: str):
-        self.m = m
         self.qual = qual
-        self.fn = fn = m.func(qual)
-        self.g = g = pf.cfg(fn)
         self.where = where = f'{m.rel}::{qual}'
-        srcs = [st for st in _stmts(fn) if isinstance(st, ast.Assign) and len(st.targets) == 1 and isinstance(st.targets[0], ast.Name)
-                and isinstance(st.value, ast.Call) and isinstance(st.value.func, ast.Attribute) and st.value.func.attr == 'source' and not st.value.args
-                and isinstance(st.value.func.value, ast.Name)]
+        self.m, self.fn, self.actual, self.inlined = locate_site(ctx, m, qual)
+        fn = self.fn
+        self.g = g = pf.cfg(fn)
+        srcs = _source_assignments(fn)
         ctx.need(len(srcs) == 1, f'{where}: expected one `<s> = <r>.source()`')
         self.src_stmt = srcs[0]
         self.S = S = srcs[0].targets[0].id  # type: ignore[attr-defined]
         self.R = srcs[0].value.func.value.id  # type: ignore[attr-defined]
-        ctx.need(len(pf.assignments(fn).get(S, [])) == 1, f'{where}: `{S}` is reassigned')
+        asg = pf.assignments(fn)
+        ctx.need(len(asg.get(S, [])) == 1, f'{where}: `{S}` is reassigned')
+        ctx.need(len(asg.get('self', [])) == 0, f'{where}: `self` is rebound')
         self.SRC = _node(g, srcs[0], 'source assignment')
-        self.tests: Dict[int, Tuple[str, str]] = {}
+        self.tests: Dict[int, ast.AST] = {}
         for n in g.nodes:
-            if n.kind == 'test' and n.ast is not None and _bare_use(n.ast, S):
-                c = _classify(n.ast, S)
-                ctx.need(c is not None, f'{where}: test `{pf.nsrc(n.ast)}` on the producing job not recognised')
-                self.tests[n.id] = c  # type: ignore[assignment]
+            if n.kind == 'test' and n.ast is not None:
+                e = _expand_flags(fn, n.ast, {S, 'self'})
+                if _bare_use(e, S):
+                    try:
+                        _site_value(e, S, {})
+                    except AnalysisError as ex:
+                        raise AnalysisError(f'{where}: {ex}') from ex
+                    self.tests[n.id] = e
+        # aliases of the producing job would escape the tests above
+        for st in _stmts(fn):
+            if st is not srcs[0] and isinstance(st, (ast.Assign, ast.AnnAssign)) and st.value is not None and isinstance(st.value, ast.Name) and st.value.id == S:
+                raise AnalysisError(f'{where}: `{pf.nsrc(st)}` aliases the producing job (not analysed)')
+
+    def opaque_calls(self, carriers: Sequence[str]) -> List[ast.Call]:
+        """Calls that were not inlined and could hide a recording effect: they receive one of `carriers` (or `self`) as an argument, or are methods of `self`,
+        and are not among the calls a recording site is known to make."""
+        out = []
+        for c in pf.calls_in(self.fn):
+            fname = c.func.attr if isinstance(c.func, ast.Attribute) else c.func.id if isinstance(c.func, ast.Name) else None
+            if fname in SITE_KNOWN_CALLS:
+                continue
+            args = list(c.args) + [k.value for k in c.keywords]
+            direct = any(isinstance(a, ast.Starred) or (isinstance(a, ast.Name) and a.id in tuple(carriers) + ('self',)) for a in args) or any(k.arg is None for k in c.keywords)
+            self_method = isinstance(c.func, ast.Attribute) and isinstance(c.func.value, ast.Name) and c.func.value.id == 'self'
+            on_carrier = isinstance(c.func, ast.Attribute) and isinstance(c.func.value, ast.Name) and c.func.value.id in carriers
+            if direct or self_method or on_carrier or fname is None:
+                out.append(c)
+        return out
 
     def under(self, val: Dict[str, bool]) -> Callable[[pf.Node, pf.Node, str], bool]:
-        """Edge filter: only the branches consistent with the valuation of {'foreign', 'notnone'} (unlisted predicates are free)."""
+        """Edge filter: only the branches consistent with the valuation of {'foreign', 'notnone'} (tests that do not look at the producing job are free)."""
         def ok(a: pf.Node, b: pf.Node, lab: str) -> bool:
-            c = self.tests.get(a.id)
-            if c is None or c[0] not in val or lab not in ('T', 'F'):
+            e = self.tests.get(a.id)
+            if e is None or lab not in ('T', 'F'):
                 return True
-            return (lab == c[1]) == val[c[0]]
+            v = _site_value(e, self.S, val)
+            return v is None or v == (lab == 'T')
         return ok
 
     def effect(self, ctx: Ctx, rule: str, what: str, is_eff: Callable[[pf.Node], bool], required: Dict[str, bool],
-               forbidden: List[Tuple[Dict[str, bool], str]], missing_msg: str, skip_msg: str) -> None:
-        """`what` must be executed on every path SRC -> normal exit consistent with `required`, and must be unreachable under each `forbidden` valuation."""
+               forbidden: List[Tuple[Dict[str, bool], str]], missing_msg: str, skip_msg: str, role: Optional[str] = None,
+               carriers: Sequence[str] = ()) -> None:
+        """`what` must be executed on every path SRC -> normal exit consistent with `required`, and must be unreachable under each `forbidden` valuation.
+        A FAIL needs the whole callback to be visible: when a call that was not inlined could perform the effect, the rule declines."""
         g, SRC = self.g, self.SRC
-        cons = f'{self.where}::{what}'
+        cons = f'{self.where}::{role or what}'
         line = self.src_stmt.lineno
+
+        def visible() -> None:
+            op = self.opaque_calls(carriers or (self.S, self.R))
+            ctx.need(not op, f'{self.where}: `{what}` not found on every required path, but `{pf.nsrc(op[0])[:80] if op else ""}` is a call that is not seen through and may perform it')
         if not any(is_eff(n) for n in g.nodes):
+            visible()
             ctx.bad(rule, cons, missing_msg, self.m.path, line)
         else:
             p = g.path_avoiding(SRC, lambda n: n is g.exit, is_eff, edge_ok=self.under(required))
             if p is not None:
+                visible()
                 ctx.bad(rule, cons, f'{skip_msg} (a path to the normal exit via `{p[-2].text() if len(p) > 1 else "?"}` skips `{what}`)', self.m.path, line)
             else:
-                ctx.ok(rule, cons, {'tests': sorted(f'{k}@{lab}' for k, lab in self.tests.values())})
+                ctx.ok(rule, cons, {'tests': sorted(pf.nsrc(e) for e in self.tests.values()), 'inlined': sorted({n for n, _ in self.inlined})})
         wrong = None
         for val, why in forbidden:
             if g.path_avoiding(SRC, is_eff, lambda n: False, edge_ok=self.under(val)) is not None:
@@ -1513,15 +1643,18 @@ def _dep_site(ctx: Ctx, m: pf.Module, qual: str) -> None:
     site = RecordingSite(ctx, m, qual)
     S = site.S
     is_add = call_pred(lambda e: _is_attr(e, 'self', DEPS), 'add', S)
-    if not any(is_add(n) for n in site.g.nodes):
-        other = [c for c in pf.calls_in(site.fn) if isinstance(c.func, ast.Attribute) and c.func.attr in ('add', 'update') and _is_attr(c.func.value, 'self', DEPS)]
-        ctx.need(not other, f'{site.where}: `self.{DEPS}` is written in an unrecognised way')
+    other = [x for x in pf.walk_shallow(site.fn) if (isinstance(x, ast.Call) and isinstance(x.func, ast.Attribute) and _is_attr(x.func.value, 'self', DEPS)
+                                                      and not (x.func.attr == 'add' and len(x.args) == 1 and isinstance(x.args[0], ast.Name) and x.args[0].id == S and not x.keywords))
+             or (isinstance(x, (ast.Assign, ast.AugAssign, ast.AnnAssign)) and any(_is_attr(t, 'self', DEPS) for t in (x.targets if isinstance(x, ast.Assign) else [x.target])))
+             or (isinstance(x, (ast.Assign, ast.AnnAssign)) and x.value is not None and _is_attr(x.value, 'self', DEPS))]
+    ctx.need(not other, f'{site.where}: `self.{DEPS}` is used in an unrecognised way (`{pf.nsrc(other[0])[:80] if other else ""}`)')
     site.effect(ctx, 'R3', f'self.{DEPS}.add({S})', is_add, {'foreign': True, 'notnone': True},
                 [({'foreign': False}, f'`{S}` is the job itself (a self-cycle: every job that mentions its own resource is rejected as cyclic)'),
                  ({'notnone': False}, f'`{S}` is None (an input file has no producing job)')],
                 f'the producing job `{S} = {site.R}.source()` is never added to `self.{DEPS}`: a job that consumes another job\'s resource is not ordered after it '
                 f'(b reads a.ofile, created in the order b, a => b is numbered and run first)',
-                f'with a foreign, non-None source the consumer is not always ordered after the producer')
+                f'with a foreign, non-None source the consumer is not always ordered after the producer',
+                role=f'self.{DEPS}.add(<producing job>)', carriers=(S,))
 
 
 FR = 'hail/python/hailtop/batch/resource.py'
